@@ -337,6 +337,12 @@ impl<'p> CoroutinePool<'p> {
             assert!(self.waits.insert(task_id, arc.clone()).is_none());
             arc
         };
+        // the task may have finished between the first look and the registration above,
+        // in which case nobody will notify us: look again before blocking
+        if let Some(r) = self.try_take_task_result(task_id) {
+            self.notify(task_id);
+            return Ok(r);
+        }
         let (lock, cvar) = &*arc;
         drop(
             cvar.wait_timeout_while(
